@@ -1,6 +1,7 @@
 import CogentModel.Json
 import CogentModel.Model.Optimiser
 import CogentModel.Model.ScopedRules
+import CogentModel.Model.OptimiserScopedProj
 open CogentModel CogentModel.Optimiser
 
 /-- objective values: extended rationals -/
@@ -80,6 +81,47 @@ def ruleJ (r : ScopedRules.Rule String Rat) : J :=
   J.obj [("par", J.str r.par),
          ("edges", match r.edges with | none => J.null | some es => J.arr (es.map J.str)),
          ("single", J.bool r.single), ("val", J.ofRat r.val)]
+
+
+def optRat (j : J) : Except String (Option Rat) :=
+  match j with
+  | J.null => pure none
+  | _ => do pure (some (← j.toRat))
+
+def optRatJ : Option Rat → J
+  | none => J.null
+  | some q => J.ofRat q
+
+/-- `{"par","edges","single","is_constant","init","value"}` -/
+def parsePRule (j : J) : Except String (ScopedProj.PRule String Rat) := do
+  let edges ← match ← j.get "edges" with
+    | J.null => pure none
+    | e => do pure (some (← e.toListOf J.toStr))
+  pure { par := ← (← j.get "par").toStr, edges := edges, single := ← (← j.get "single").toBool,
+         isConst := ← (← j.get "is_constant").toBool, init := ← optRat (← j.get "init"),
+         value := ← optRat (← j.get "value") }
+
+def pruleJ (r : ScopedProj.PRule String Rat) : J :=
+  J.obj [("par", J.str r.par),
+         ("edges", match r.edges with | none => J.null | some es => J.arr (es.map J.str)),
+         ("single", J.bool r.single), ("is_constant", J.bool r.isConst),
+         ("init", optRatJ r.init), ("value", optRatJ r.value)]
+
+/-- a `my_rules` entry: value may be null -/
+def parseRuleOpt (j : J) : Except String (ScopedRules.Rule String (Option Rat)) := do
+  let edges ← match ← j.get "edges" with
+    | J.null => pure none
+    | e => do pure (some (← e.toListOf J.toStr))
+  pure { par := ← (← j.get "par").toStr, edges := edges, single := ← (← j.get "single").toBool,
+         val := ← optRat (← j.get "val") }
+
+def ruleOptJ (r : ScopedRules.Rule String (Option Rat)) : J :=
+  J.obj [("par", J.str r.par),
+         ("edges", match r.edges with | none => J.null | some es => J.arr (es.map J.str)),
+         ("single", J.bool r.single), ("val", optRatJ r.val)]
+
+def perrJ (e : ScopedProj.PErr) : J :=
+  J.obj [("err", J.str (match e with | .keyError => "KeyError" | .noRef => "IndexError"))]
 
 def handle (cmd : String) (j : J) : Except String J :=
   match cmd with
@@ -177,6 +219,49 @@ def handle (cmd : String) (j : J) : Except String J :=
       let concl := out.all fun o => (o.edges.getD []).all fun e =>
         kn.all fun n => !(n.par == o.par && ScopedRules.covers n e) || o.val == n.val
       pure (J.obj ([("rules", J.arr (out.map ruleJ)), ("conclusion", J.bool concl)] ++ wf))
+  | "project_scoped" => do
+    -- update_param_rules on rules that carry their scope (+ optionally the whole initialise pipeline)
+    let rich ← parseCoords (← j.get "rich")
+    let simple ← parseCoords (← j.get "simple")
+    let ref ← (← j.get "ref").toStr
+    let passNames ← (← j.get "pass").toListOf J.toStr
+    let rules ← (← j.get "rules").toListOf parsePRule
+    let same ← (← j.get "same").toBool
+    let pi ← (← j.get "pi").toListOf J.toRat
+    let edgeNames ← (← j.get "edge_names").toListOf J.toStr
+    let pass := fun n => passNames.contains n
+    let chars : String → List String := fun s => s.toList.map (fun c => String.singleton c)
+    if rich.length < simple.length then pure (errJ .assertion) else
+    match chosenAll rich simple with
+    | .error e => pure (errJ e)
+    | .ok ch =>
+      let hyp : List (String × J) :=
+        [("one_per_edge", J.bool (ScopedProj.onePerEdgeB pass rules edgeNames)),
+         ("nested", J.bool (nestedSame ref rich simple)),
+         ("rich_names_distinct", J.bool ((ch.map (·.1)).eraseDups.length == ch.length))]
+      if same then
+        match ScopedProj.updateParamRulesSame ref pass rich ch rules with
+        | .error e => pure (perrJ e)
+        | .ok proj =>
+          let cells := (cellsOf rich ++ cellsOf simple).eraseDups
+          -- the conclusion of `projection_exact_scoped`, evaluated on every edge and cell
+          let agree := edgeNames.all fun e => cells.all fun cell =>
+            ScopedProj.edgeRate (· * ·) (1 : Rat) rich (ScopedProj.projectedPairs pass proj e) cell
+              == ScopedProj.edgeRate (· * ·) (1 : Rat) simple (ScopedProj.nestedPairs pass rules e) cell
+          let base := [("rules", J.arr (proj.map pruleJ)), ("edge_rates_agree", J.bool agree)] ++ hyp
+          match j.get? "my" with
+          | some myj => do
+            let my ← myj.toListOf parseRuleOpt
+            let nullR := proj.map ScopedProj.toRule
+            let wfr := ScopedRules.wfrB chars (ScopedRules.keyed my) (ScopedRules.keyed nullR)
+            match ScopedRules.updateScoped chars my nullR with
+            | .error _ => pure (J.obj (base ++ [("final_err", J.str "ValueError"), ("wfr", J.bool wfr)]))
+            | .ok fin => pure (J.obj (base ++ [("final", J.arr (fin.map ruleOptJ)), ("wfr", J.bool wfr)]))
+          | none => pure (J.obj base)
+      else
+        match ScopedProj.updateParamRulesNotSame (· * ·) (· / ·) (1 : Rat) (fun k => pi.getD k 0) ref pass rich ch rules with
+        | .error e => pure (perrJ e)
+        | .ok proj => pure (J.obj ([("rules", J.arr (proj.map pruleJ))] ++ hyp))
   | _ => throw s!"unknown command {cmd}"
 
 def main : IO Unit := driverLoop handle
